@@ -870,7 +870,17 @@ static int bld_add_rr(vh_rng_t *r, ares_dns_record_t *rec, bld_names_t *bn, bld_
               len  = cl[vh_below(r, 4)];
             }
             gen_bytes(r, buf, len, 0);
-            st = ares_dns_rr_set_opt(rr, key, code, len ? buf : NULL, len);
+            if (len && vh_chance(r, 1, 40)) {
+              /* a length without bytes (docs/ares_dns_rr.3: misuse is answered with an error): if the setter takes it,
+               * the record has to come out of the writer in a form the parser accepts like any other */
+              st = ares_dns_rr_set_opt(rr, key, code, NULL, len);
+              vh_count(st == ARES_SUCCESS ? "opt_null_value_with_length_accepted" : "opt_null_value_with_length_refused");
+              if (st != ARES_SUCCESS) {
+                st = ares_dns_rr_set_opt(rr, key, code, buf, len);
+              }
+            } else {
+              st = ares_dns_rr_set_opt(rr, key, code, len ? buf : NULL, len);
+            }
             if (code == 10) {
               code = 11;
             }
@@ -1300,6 +1310,11 @@ static void mkq_case(vh_rng_t *r)
     }
   }
   type    = vh_chance(r, 3, 4) ? (int)gen_known_types[vh_below(r, 18)] : (int)gen_pick_u16(r);
+  if (vh_chance(r, 1, 16)) {
+    /* a type that does not fit the 16 bits the wire has for it: to be refused, not cut down to another type */
+    static const int wide[] = { 65536, 65537, 65536 + 28, 70000, 0x10001, 0x7fffffff, -1, -65535 };
+    type = wide[vh_below(r, 8)];
+  }
   klass   = classes[vh_below(r, 11)];
   rd      = (int)vh_below(r, 2);
   id      = (unsigned short)vh_rand64(r);
@@ -1334,7 +1349,7 @@ static void mkq_case(vh_rng_t *r)
       if (status == ARES_SUCCESS) {
         rt_violation(&ctx, "mkquery:status", "%s: name '%.300s' class %d udp %d: builder returned "
                      "SUCCESS (%d octets)", what, text, klass, udp, blen);
-      } else if (!model_ok && class_ok && udp_ok && status != ARES_EBADNAME && !onion) {
+      } else if (!model_ok && class_ok && udp_ok && status != ARES_EBADNAME && !onion && type >= 0 && type <= 65535) {
         /* docs/ares_create_query.3 + test/ares-test-misc.cc CreateQueryFailures */
         rt_violation(&ctx, "mkquery:status", "unencodable name '%.300s': expected EBADNAME, got %d", text,
                      status);
@@ -1342,6 +1357,10 @@ static void mkq_case(vh_rng_t *r)
       vh_count("mkq_rejected_as_expected");
       goto done;
     }
+  }
+  if (status != ARES_SUCCESS && (type < 0 || type > 65535)) {
+    vh_count("mkq_wide_type_refused");
+    goto done;
   }
   if (status != ARES_SUCCESS) {
     rt_violation(&ctx, "mkquery:status", "encodable name '%.300s' type %d class %d udp %d: status %d",
@@ -1361,7 +1380,7 @@ static void mkq_case(vh_rng_t *r)
           D.rcode || D.nq != 1 || D.trailing || D.nptr_total) {
         rt_violation(&ctx, "mkquery:header", "id %u/%u rd %d/%d nq %zu trailing %zu; bytes %s", D.id, id,
                      D.rd, rd, D.nq, D.trailing, hx);
-      } else if (!refdns_name_eq(&D.q[0].name, &want) || D.q[0].type != (uint16_t)type ||
+      } else if (!refdns_name_eq(&D.q[0].name, &want) || (int)D.q[0].type != type ||
                  D.q[0].klass != (uint16_t)klass) {
         rt_violation(&ctx, "mkquery:question", "asked '%.200s' type %d class %d, got type %u class %u (name %s); bytes %s",
                      text, type, klass, D.q[0].type, D.q[0].klass,
